@@ -31,10 +31,10 @@ FULL_WITNESS_PER_KEY = 3
 
 def _tasks(ctx: common.Ctx, n_bundles: int, n_corpus: int) -> Iterator[dict[str, Any]]:
     for k in range(n_bundles):
-        rng = common.rng_for("C19", "bundle", k)
-        b = c19_gen.gen_bundle(rng, f"s{ctx.seed}b{k}")
+        rng = common.rng_fixed("C19", "bundle", k)
+        b = c19_gen.gen_bundle(rng, f"s1b{k}")
         for mode in MODES:
-            r = common.rng_for("C19", "opts", k, mode)
+            r = common.rng_fixed("C19", "opts", k, mode)
             flags = [f for f, p in (("--include-private", 0.2), ("--export-less", 0.15)) if r.random() < p]
             style = "files"
             if mode == "insp":
